@@ -106,6 +106,9 @@ def adversarial(rng, doc):
         "cyclic-variable-via-filter": "let va = %s[ this == %%va ]\nrule x {\n %%va !empty\n}" % k,
         "recursive-parameterised-rule": "rule f(p) {\n f(%%p)\n}\nrule x {\n f(%s)\n}" % k,
         "mutually-recursive-parameterised-rules": "rule f(p) {\n %%p exists\n g(%%p)\n}\nrule g(q) {\n f(%%q) or %%q !exists\n}\nrule x {\n not g(%s)\n}" % k,
+        "nan-and-infinity-operands": ("rule x {\n let n = parse_float(\"NaN\")\n %%n == 1.5\n %%n < 2.0 or %%n >= 0.5\n %%n in [1.5, 2.5]\n %%n == %%n\n not %%n != 0.0\n %%n in r[0.0, 1.0]\n"
+                                      " let i = parse_float(\"-inf\")\n %%i > 1.0 or %%i == %%i\n %%i in r(0.0, 5.0]\n %s == %%n\n %s < %%i\n}") % (k, k),
+        "nan-document": "rule x {\n a == 1.5\n a < 2.0 or a >= 0.5\n l[*] in [1.5, 2.5]\n a == l[0]\n some l[*] == a\n m.k <= 0.0\n a in r[0.0, 1.0]\n l[*] != a\n}",
         "wrong-arity": "rule p(a, b) { %%a == %%b }\nrule x { p(%s) }" % k,
         "unknown-param-rule": "rule x { nosuch(%s) }" % k,
         "unknown-variable": "rule x { %%nosuch == 1 }",
@@ -237,6 +240,9 @@ def _shard(ctx, rng, ovf):
             doc = gen.gen_tf_doc(rng)
         dtext = json.dumps(doc) if rng.random() < 0.7 else mutate(rng, json.dumps(doc), 1)
         cls, rtext = adversarial(rng, doc)
+        if cls == "nan-document":
+            # not-a-number and infinities as the YAML loaders type them (and the `NaN` token in a .json file read by validate)
+            dtext = rng.choice(["a: nan\nl: [NaN, inf, 1.5, .nan]\nm: {k: -inf}\n", '{"a": NaN, "l": [NaN, 1.5, inf], "m": {"k": -inf}}', "a: .NaN\nl:\n  - .inf\n  - 2.5\nm:\n  k: -.inf\n"])
         case = {"kind": "pair", "rules": rtext, "data": dtext, "shape": cls}
         ctx.res.counts["shape:" + cls] += 1
         for channel, res in run_all_channels(ctx, rtext, dtext, cls) + run_all_channels(ctx, rtext, dtext, cls, ovf):
@@ -513,11 +519,11 @@ def main(tier, seed):
     res.extra["distinct_parse_error_positions"] = len(pos)
     shapes = [k for k in res.counts if k.startswith("shape:")]
     mr, sp = res.counts["mutated_rules"], res.counts["mutated_rules_still_parse"]
-    floor = {"cases": (res.cases, 5000), "adversarial_shapes": (len(shapes), 36), "mutated_rules_still_parsing_percent": (int(100 * sp / max(1, mr)), 5),
+    floor = {"cases": (res.cases, 5000), "adversarial_shapes": (len(shapes), 38), "mutated_rules_still_parsing_percent": (int(100 * sp / max(1, mr)), 5),
              "distinct_parse_error_positions": (len(pos), 100), "channels": (len(res.extra.get("channels", set())), 18), "memcheck_jobs": (njobs, 40),
              "overflow_checked_sweep_jobs": (res.counts["sweep_jobs"], 2500)}
     return core.finish("C08", tier, seed, res, t0,
-                       rule="(1) grammar-generated rule texts with 1-3 byte/token mutations x documents; (2) 39 adversarial grammatical shapes + generated programs with "
+                       rule="(1) grammar-generated rule texts with 1-3 byte/token mutations x documents; (2) 41 adversarial grammatical shapes + generated programs with "
                             "this-filters/keys filters/functions x generated and mutated documents; (3) 22 hostile documents + mutated documents as data, parameter "
                             "file, test spec and payload envelope; (4) real processes incl. rulegen and non-UTF-8 files; valgrind memcheck on the YAML loader / payload / "
                             "FFI paths; (5) crash sweep: the quick workloads of C18 and C13 (thorough: also C01, C03, C10, C15, C11, C17) replayed on the "
